@@ -48,7 +48,13 @@ fn real_source(text: &str, ops: &[Op]) -> Result<Vec<u8>, String> {
         _ => {}
       }
     }
-    s.source().as_bytes().to_vec()
+    let src = s.source().as_bytes().to_vec();
+    // the other content views must agree with source() (rope() renders to it, size() is its length, buffer() its bytes)
+    let rope = s.rope().to_string().into_bytes();
+    if rope != src { return [b"<rope() differs from source(): ".to_vec(), rope, b">".to_vec()].concat(); }
+    if s.size() != src.len() { return b"<size() differs from source().len()>".to_vec(); }
+    if s.buffer().as_ref() != &src[..] { return b"<buffer() differs from source()>".to_vec(); }
+    src
   }).map_err(|e| format!("panic: {}", e.downcast_ref::<String>().cloned().or_else(|| e.downcast_ref::<&str>().map(|s| s.to_string())).unwrap_or_default()))
 }
 
